@@ -10,6 +10,7 @@ From PowHsm Require Import Proofs.C18.
 From PowHsm Require Import Gen.Src.
 From PowHsm Require Import Proofs.SrcEquivPin.
 From PowHsm Require Import Proofs.SrcLiftPin.
+From PowHsm Require Import Proofs.C18b.
 Open Scope N_scope.
 
 (* the confirmation loop returns yes iff the first line that normalises to yes / n / no is a yes *)
@@ -272,5 +273,53 @@ Theorem C18_source_pin_any_policy_iff :
          wf_bytes p ->
          src_BasePin__is_valid cls (VBytes p) (VBool true) = POk (VBool true) <-> Forall alnum p.
 Proof. exact (@src_pin_any_policy_iff). Qed.
+
+(* the onboarding model that also returns the unread input is the onboarding model (same outcome, same world) *)
+Theorem C18_onboard_keep_agrees :
+  forall (k : dongle_kind) (o : admin_opts) (stdin : list str) (typed : list bytes)
+           (seed : bytes) (w : world),
+         do_onboard k o stdin typed seed w = result_to_unit (do_onboard_keep k o stdin typed seed w).
+Proof. exact (@do_onboard_keep_agrees). Qed.
+
+(* Ledger onboarding continued through 'disconnect and re-connect': its events are those of the device-side onboarding followed by those of the unlock step; a failed first half sends nothing more *)
+Theorem C18_onboard_through_unlock_split :
+  forall (k : dongle_kind) (o : admin_opts) (stdin : list str) (typed : list bytes)
+           (seed : bytes) (w : world),
+         let (r0, w1) := do_onboard_keep k o stdin typed seed w in
+         match r0 with
+         | Ok r =>
+             do_onboard_through_unlock k o stdin typed seed w =
+             onboard_second_half k o (fst r) (snd r) w1 /\
+             new_events w (snd (do_onboard_through_unlock k o stdin typed seed w)) =
+             (new_events w w1 ++ new_events w1 (snd (onboard_second_half k o (fst r) (snd r) w1)))%list
+         | Exn e =>
+             do_onboard_through_unlock k o stdin typed seed w = (Exn e, w1) /\
+             new_events w (snd (do_onboard_through_unlock k o stdin typed seed w)) = new_events w w1
+         end.
+Proof. exact (@onboard_through_unlock_split). Qed.
+
+(* the unlock step that follows onboarding sends a PIN-bearing APDU only after, in order, connect, mode = bootloader, onboarded, correct echo - whatever device shows up after the re-connection *)
+Theorem C18_onboard_second_half_pin_only_when :
+  forall (k : dongle_kind) (o : admin_opts) (stdin_rest : list str) 
+           (typed_rest : list bytes) (w : world) (n1 : list event) (u : event) 
+           (n2 : list event),
+         new_events w (snd (onboard_second_half k o stdin_rest typed_rest w)) = (n1 ++ u :: n2)%list ->
+         pin_bearing u = true ->
+         InOrder (unlock_pre_events k) n1 /\
+         (forall p : bytes, o_pin o = Some p -> pin_is_valid p (o_any_pin o) = true).
+Proof. exact (@onboard_second_half_pin_only_when). Qed.
+
+(* hence every PIN-bearing APDU sent after the device-side onboarding is preceded, since then, by those answers *)
+Theorem C18_onboard_through_unlock_pin_after_onboarding :
+  forall (k : dongle_kind) (o : admin_opts) (stdin : list str) (typed : list bytes)
+           (seed : bytes) (w : world) (r : list str * list bytes) (w1 : world) 
+           (n1 : list event) (u : event) (n2 : list event),
+         do_onboard_keep k o stdin typed seed w = (Ok r, w1) ->
+         new_events w1 (snd (do_onboard_through_unlock k o stdin typed seed w)) =
+         (n1 ++ u :: n2)%list ->
+         pin_bearing u = true ->
+         InOrder (unlock_pre_events k) n1 /\
+         (forall p : bytes, o_pin o = Some p -> pin_is_valid p (o_any_pin o) = true).
+Proof. exact (@onboard_through_unlock_pin_after_onboarding). Qed.
 
 Example C18_nonvacuous : length PUBKEY_PATHS = 6%nat. Proof. exact pubkey_paths_are_six. Qed. (* vm_compute examples in Proofs/C18.v: ex_ledger_onboarded (42 destructive APDUs at exact positions), ex_carried_out_applies, ex_operator_says_no, ex_already_onboarded, ex_signer_mode_refused, ex_bad_echo_refused, ex_digits_only_pin_refused, ex_short_seed_refused, ex_sgx_onboarded, ex_unlock_sends_pin, ex_changepin, ex_pubkeys *)
